@@ -74,6 +74,7 @@ def chain_inputs(r):
         buf([(a, H3), (a + 20, M3), (a + 24 + r.choice([250, 300]), T3)], 420),                   # three pieces, complete
         buf([(a, H3), (a + 24 + 260, T3)], 420),                                                  # three pieces, middle missing
         buf([(a, H1), (a + 10, H1), (a + 40, T1), (a + 60, H2)], 120),                            # two heads, one tail, a stray head
+        buf([(a, H2), (a + 340, H2), (a + 344 + r.choice([250, 280]), T2)], 700),                 # decoy head too far, second head right
     ]
     return r.sample(outs, r.randint(3, 5))
 
@@ -145,6 +146,11 @@ def gen_ruleset(r, pool, bomb=False, pad=None, chains=False):
         s_r = sid(); add(r.choice([("str", s_r), ("cnt", s_r, 2)]), strings=[sl.Rx("xy+z")])
     if r.random() < 0.6:
         s_r = sid(); add(("str", s_r), strings=[sl.Rx("w[a-ce-z]{2,4}d")])
+    # fullword strings: the delimiter test looks at the bytes around the match, never beyond the block
+    if r.random() < 0.7:
+        s_r = sid(); add(r.choice([("str", s_r), ("cnt", s_r, 1)]), strings=[sl.Fullword(r.choice([b"hello", b"world", b"he"]))])
+    if r.random() < 0.3:
+        s_r = sid(); add(("str", s_r), strings=[sl.Fullword(sl.Rx("hel+o"))])
     # hex string with a jump: yr_re_fast_exec and the scanner's pool of position nodes
     if r.random() < 0.7:
         s_r = sid(); add(r.choice([("str", s_r), ("cnt", s_r, 1), ("len", s_r, 1, 5)]), strings=[sl.HexJump(b"AB", 0, 4, b"CD")])
@@ -428,7 +434,7 @@ def run_body(chk, lres, b, tier, replay):
         lines = [replay["case"]]
         cases = None
     else:
-        n = 260 if tier == "quick" else 8000
+        n = 260 if tier == "quick" else 6000
         cases = [gen_case(r, "c%d" % i) for i in range(n)]
         # "destroyed after any prefix": a share of the histories is also run cut after every call
         extra = []
